@@ -1,7 +1,8 @@
 """Shared plumbing for the execution properties (C01-C03, C06, C08, C09, C14, C15)."""
+import asyncio
 import json
 
-from vt import docgen, harness, refexec, smodel, world as world_mod
+from vt import docgen, harness, refexec, sched as S_, smodel, world as world_mod
 from vt.values import canon
 
 
@@ -49,14 +50,45 @@ def run_reference(s, req, w_ref):
     return refexec.reference(w_ref, req.doc, req.op.name, req.variables, root)
 
 
+class EngineStuck(Exception):
+    """`execute` did not return although the event loop went quiescent (nothing ready, no timer): it never will.  Decided
+    on the loop's state, not on wall-clock time.  `engine_verdict` tells Ctx.violation that this is an observation about
+    the engine although no engine frame is on the traceback."""
+    engine_verdict = True
+
+
+async def to_completion(coro):
+    """Await `coro` as a task; raise EngineStuck when it is unfinished while the loop has nothing left to run (the harness'
+    resolvers never use timers or threads, so quiescent + unfinished = deadlock)."""
+    loop = asyncio.get_running_loop()
+    task = asyncio.ensure_future(coro)
+    idle = 0
+    while not task.done():
+        await asyncio.sleep(0)
+        if task.done():
+            break
+        if loop._ready or getattr(loop, "_scheduled", None):
+            idle = 0
+            continue
+        idle += 1
+        if idle > 5 and S_.quiescent_for_good(task):
+            task.cancel()
+            try:
+                await task
+            except BaseException:  # noqa
+                pass
+            raise EngineStuck("execute never returns: request unfinished, event loop quiescent")
+    return task.result()
+
+
 async def run_engine(engine, s, req, w_eng, ctx_extra=None):
     root_t = s.roots()[req.op.kind]
     root = w_eng.root_object(root_t) if req.use_root else None
     context = {"world": w_eng}
     if ctx_extra:
         context.update(ctx_extra)
-    resp = await engine.execute(req.text, operation_name=req.op_name, context=context,
-                                variables=req.variables, initial_value=root)
+    resp = await to_completion(engine.execute(req.text, operation_name=req.op_name, context=context,
+                                              variables=req.variables, initial_value=root))
     return resp, context
 
 
